@@ -1,1 +1,2 @@
 -- all property modules (built by setup.sh)
+import GoNeat.Props.C13
